@@ -15,7 +15,8 @@ helper shared by both (instances told apart by call chain), with the comparator
 called directly or through a fn pointer;
 (R5) the tag-list tokeniser's shape: an element ends at the next '"' after the
 opening quote, a ',' is consumed only right after a closing quote and is followed
-by skipping SP/HTAB; index arithmetic discharged; (R6) 412 dominates 304
+by skipping SP/HTAB (a loop over the bytes, or `strip_prefix(b",")` + the counted
+SP/HTAB prefix; shrinking slice or cursor representation); index arithmetic discharged; (R6) 412 dominates 304
 dominates range handling in `serve`.  Does not decide: httpdate's parser."""
 import itertools
 from ..px import const, is_const, is_agg, agg_get, fmt_term
